@@ -371,6 +371,17 @@ class OrchestrationScenario(Scenario):
         def mk(action: str, what: str) -> Any:
             def fn(e: Env) -> None:
                 ins = e.memo['insights']
+                if action == 'break':
+                    # an unknown ERROR event on the watch stream of one served pair ('peering:n0', 'r1:n0')
+                    rname, ns = what.split(':')
+                    plural = NS_PEERING.plural if rname == 'peering' else resources[rname].plural
+                    hit = False
+                    for st in e.world.open_streams():
+                        if st.kind.plural == plural and st.namespace == ns:
+                            e.stream_fault(st, 'err500')
+                            hit = True
+                    e.log('injected', what=what, hit=hit)
+                    return
 
                 async def revise() -> None:
                     async with ins.revised:
@@ -394,9 +405,19 @@ class OrchestrationScenario(Scenario):
         out: list[Violation] = []
         if env.end_reason in ('stall', 'livelock', 'step-budget'):
             return [self.viol(env, 'no-progress', f'execution ended with {env.end_reason}', end=env.end_reason)]
-        for t, k, p in env.obs:
-            if k == 'orchestrator-failed':
-                out.append(self.viol(env, 'orchestrator-failed', f"t={t}: the orchestrator raised {p['error']}", clause='coverage'))
+        injected = [(t, p['what']) for t, k, p in env.obs if k == 'injected' and p['hit']]
+        failed = [(t, p['error']) for t, k, p in env.obs if k == 'orchestrator-failed']
+        if injected:
+            # "an unknown error event is never silently skipped": whichever served pair it hits (the peering objects are watched like
+            # anything else), the failure surfaces - the orchestrator does not carry on with a pair that nobody watches any more
+            if not failed and not env.owes():
+                have0 = {(st.kind.plural, st.namespace) for st in env.world.open_streams()}
+                out.append(self.viol(env, 'unknown-error-skipped', f"an unknown ERROR event was injected into the watch of {injected[0][1]} at t={injected[0][0]}; the "
+                                                                   f"orchestrator carried on (open watches at the end: {sorted(have0, key=str)})", clause='never-skipped',
+                                     what=injected[0][1].split(':')[0]))
+            return out
+        for t, error in failed:
+            out.append(self.viol(env, 'orchestrator-failed', f"t={t}: the orchestrator raised {error}", clause='coverage'))
         if env.owes():
             return out
         ins = env.memo['insights']
@@ -600,6 +621,11 @@ def orchestration_scenarios(tier: str) -> list[OrchestrationScenario]:
                 # the same histories with mandatory namespaced peering: n1 has no peering object, n2 shows a live blocker
                 user = [(1.0, 'addns', 'n0'), (1.0, 'addres', 'r1')] + [(3.0 + i * 3.0, a, w) for i, (a, w) in enumerate(combo) if (a, w) != ('addres', 'r1')]
                 out.append(OrchestrationScenario(user=user, spacing=3.0, peering=True, peering_in=['n0', 'n2'], blocker_in=['n2']))
+    # an unknown ERROR event in the stream of a served pair - a resource's or a peering object's - at some point of a small history
+    for target in ('peering:n0', 'r1:n0', 'peering:n2'):
+        for at in (5.0, 12.0):
+            user = [(1.0, 'addns', 'n0'), (2.0, 'addres', 'r1'), (8.0, 'addns', 'n2'), (at, 'break', target)]
+            out.append(OrchestrationScenario(user=sorted(user), spacing=3.0, peering=True, peering_in=['n0', 'n2'], blocker_in=[]))
     return out
 
 
